@@ -52,7 +52,7 @@ def live_sessions(docs, batch):
         for d in docs[i:i + batch]:
             steps.append(wire.S(d))
         steps.append(dict(op="fence"))
-    return dict(steps=steps, timeout=6000, stopOnStall=True)
+    return dict(steps=steps, timeout=6000, stopOnStall=True, watchdog=60 if len(docs) > 1 else 25)
 
 
 def live_worker(args):
@@ -86,8 +86,8 @@ def live_worker(args):
 
     stats["stanzas_sent"] = len(docs)
     for _round in range(40):
-        if not sessions:
-            break
+        if not sessions or len(viol) >= 3:
+            break   # (three witnesses per worker are enough: a client that stalls on every batch would otherwise cost a timeout each)
         nxt = []
         for s, (kind, info, fences) in zip(sessions, run(sessions, batch)):
             stats["fences_answered"] += fences
@@ -102,6 +102,8 @@ def live_worker(args):
             if rest:
                 nxt.append(rest)      # the stanzas behind the batch that ended the session go into a fresh session
             # isolate: every stanza of the batch alone in a fresh session
+            if len(viol) >= 3:
+                continue
             singles = [[d] for d in bad]
             found = False
             for d, (k2, info2, _) in zip(singles, run(singles, 1)):
